@@ -24,6 +24,16 @@ the final world: every array value, every shell parameter, the error state, and 
 parameters at its last (re)normalisation.  Observed and predicted are compared op by op; the cached
 norm_cont is compared bitwise with that of a freshly constructed shell carrying the predicted parameters;
 shells the model calls fresh must have a unit overlap diagonal (1e-8).
+
+Component conventions: the environment may hold shells of one angular momentum whose class reports another
+Cartesian order / other pure labels (subclasses as gbasis/wrappers.py builds them; the labels of one of them are
+a caller-owned LIST that is also passed to generate_transformation directly, several times).  The convention
+objects are shared objects like any other (snapshots cover lists of strings), and a shell's table is part of the
+shell's value in the model.  "The value returned depends only on the arguments" is additionally tested ACROSS
+PROCESSES: a pair of call-only histories with the same calls in different orders is executed in two newly forked
+processes; calls the model declares equal (result_depends_on_values_only, on first ++ second) must give bitwise
+equal results - state that a call leaves behind in the process (a memo keyed by part of the arguments) makes
+them differ even though every repetition inside one process agrees.
 """
 import copy
 import hashlib
@@ -47,7 +57,19 @@ RULE = ("histories of 1-30 operations (quick ~40, thorough ~600) on one environm
         "coord_types list+tuple; ops: ~45% valid public calls (30 functions), ~20% corrupted calls (an argument "
         "replaced by another shared object or a bad immediate), ~20% shell parameter updates (valid and rejected), "
         "~10% assign_norm_cont, ~5% np.seterr by the user; 35% of histories start from a non-default error state "
-        "(modes ignore/warn/raise). Every random choice from random.Random(seed,index). A history is non-trivial "
+        "(modes ignore/warn/raise). COMPONENT CONVENTIONS (60% of the histories, 4 directed ones, tag 'conventions'): "
+        "three more spherical shells of one l in {1,2,3} - the library class (default order), a subclass with a permuted "
+        "Cartesian order and the default pure labels, a subclass whose pure labels ARE the shared list object SO "
+        "(permuted, '-' markers) - bases Bd/Bc/Bs/Bdc/Bcd/Bcs over them and the caller's convention objects SO (list), "
+        "SOt (tuple), CO/COd (component arrays); ~20% of the ops are calls on them: symmetric / asymmetric overlap, "
+        "kinetic energy, evaluate_basis on default order, a custom order of the same l, default again, and "
+        "generate_transformation with the SAME list object 'right' then 'left' (then 'left'); the convention table of a "
+        "shell is part of its value in the model (coord_type field = (coord_type, table)). TWO-PROCESS PAIRS (4 quick, "
+        "24 thorough, tag 'two-processes'): two call-only histories over one environment holding the same calls in "
+        "another order (default-order-first vs custom-order-first, and random shuffles / reversals) are run in two "
+        "newly forked processes that have made no library call; the model, given first++second, names the calls that "
+        "must agree and their results are compared bitwise across the processes. overlap_integral is also called with "
+        "loose tolerances (pairs really screened). Every random choice from random.Random(seed,index). A history is non-trivial "
         "when it has >=2 ops, at least one call returned and at least one pair of calls was predicted equal or an "
         "update happened; distinct by the hash of the exact case.")
 ASSUMPTIONS = [
@@ -57,7 +79,9 @@ ASSUMPTIONS = [
     "observation covers what is reachable from the shared objects (arrays, containers, every attribute of every "
     "shell, numpy.geterr/geterrcall); other process state (warnings registry, BLAS threads, the file system) is not "
     "watched",
-    "bitwise equality of repeated results presumes single-threaded BLAS (./check exports OPENBLAS_NUM_THREADS=1)",
+    "bitwise equality of repeated results presumes single-threaded BLAS (./check exports OPENBLAS_NUM_THREADS=1); "
+    "the two-process pairs presume in addition that two processes forked from this one compute bitwise equal "
+    "results for bitwise equal arguments (same binary, same libraries, same error state)",
     "unit normalisation is checked numerically (1e-8) on the generated shells only; the exact statement is C01's",
     "shell parameter updates are made through the property setters with fresh arrays; in-place writes into an "
     "array a shell was built from (which the shell shares) are user mutations and are not generated",
@@ -600,13 +624,23 @@ def run_history(case, pred=None, outcomes_out=None):
         env = build_env(case["env"])
         shells = env["_shells"]
         np.seterr(**case["env"]["err"])
-        # as constructed: unit-normalised
+        # as constructed: unit-normalised (the check is itself a public call on each shell: it is monitored too)
+        before = snap_world(env)
+        problems = []
         for i, s in enumerate(shells):
             stats["unit_checks"] += 1
             p = unit_diag_problem(s)
             if p:
-                return ({"kind": "not-unit-normalised", "signature": "unit:constructed", "op_index": -1,
-                         "shell": i, "impl": p}, stats)
+                problems.append((i, p))
+        diff = world_diff(before, snap_world(env))
+        if diff:
+            which = "errstate" if all(d["object"] == "numpy.geterr" for d in diff) else "argument"
+            return ({"kind": "world-changed-by-call", "signature": "%s:overlap_integral:ok" % which, "op_index": -1,
+                     "op": "overlap_integral([shell]) on every shell of the freshly built environment",
+                     "changed": diff, "model": "world unchanged by a public call"}, stats)
+        if problems:
+            return ({"kind": "not-unit-normalised", "signature": "unit:constructed", "op_index": -1,
+                     "shell": problems[0][0], "impl": problems[0][1]}, stats)
         outcomes = outcomes_out if outcomes_out is not None else []   # per op: ("ok", digest) | ("rejected", "") | None
         keys = {}       # harness-side key of a call -> index of first occurrence
         opkeys = {}     # op index -> key
